@@ -1162,7 +1162,7 @@ static void h_step_code (const char *opsfile) {
   char op[32];
   static uint8_t code[1 << 17];
   struct { uint8_t *h_a; size_t h_n; } pub[512];
-  int npub = 0;
+  int npub = 0, fill_idx = -1;
   size_t x, y, z;
   uint8_t *newaddr = NULL;
   h_need_ctx ();
@@ -1202,6 +1202,56 @@ static void h_step_code (const char *opsfile) {
       for (size_t i = 0; i < len; i++) code[i] = (uint8_t) (a[off + i] ^ 0x5a);
       _MIR_change_code (ctx, a + off, code, len);
       h_ev ("cchange", 2, (uintptr_t) (a + off), len, 0, 0);
+      h_ev ("R", 1, 0, 0, 0, 0);
+    } else if (strcmp (op, "fill") == 0) {
+      /* publish exactly as many bytes as the newest holder has left: the piece ends at the holder's
+         bound, i.e. at the end of the mapping */
+      size_t nh = VARR_LENGTH (code_holder_t, code_holders);
+      code_holder_t ch;
+      size_t room;
+      if (nh == 0) continue;
+      ch = VARR_GET (code_holder_t, code_holders, nh - 1);
+      room = (size_t) (ch.bound - (uint8_t *) (((uintptr_t) ch.free + 15) / 16 * 16));
+      if (room == 0 || room > sizeof (code) || npub >= 512) continue;
+      for (size_t i = 0; i < room; i++) code[i] = (uint8_t) (1 + h_rng () % 255);
+      res = _MIR_publish_code (ctx, code, room);
+      h_ev ("cpublish", 2, room, h_last_map, 0, 0);
+      h_ev ("R", 1, (uintptr_t) res, 0, 0, 0);
+      if (res != NULL) { pub[npub].h_a = res; pub[npub].h_n = room; fill_idx = npub++; }
+    } else if (strcmp (op, "chgpe") == 0) {
+      /* patches at page edges.  y % 3 == 0: ends exactly at a page end inside a piece; 1: starts exactly
+         at a page start; 2: ends exactly at the end of the mapping (needs a preceding `fill`) */
+      uint8_t *a = NULL, *at = NULL;
+      size_t n = 0, len = 0;
+      if (npub == 0) continue;
+      if (y % 3 == 2) {
+        if (fill_idx < 0) continue;
+        a = pub[fill_idx].h_a;
+        n = pub[fill_idx].h_n;
+        len = 1 + z % (n < 64 ? n : 64);
+        at = a + n - len;
+      } else {
+        for (int k = 0; k < npub && at == NULL; k++) {
+          uintptr_t bnd;
+          a = pub[(x + (size_t) k) % (size_t) npub].h_a;
+          n = pub[(x + (size_t) k) % (size_t) npub].h_n;
+          if (y % 3 == 0) {
+            bnd = ((uintptr_t) a + h_ps) / h_ps * h_ps; /* first page end after a */
+            if (bnd > (uintptr_t) a + n) continue;
+            len = 1 + z % (bnd - (uintptr_t) a < 64 ? bnd - (uintptr_t) a : 64);
+            at = (uint8_t *) bnd - len;
+          } else {
+            bnd = ((uintptr_t) a + h_ps - 1) / h_ps * h_ps; /* first page start at or after a */
+            if (bnd >= (uintptr_t) a + n) continue;
+            len = 1 + z % ((uintptr_t) a + n - bnd < 64 ? (uintptr_t) a + n - bnd : 64);
+            at = (uint8_t *) bnd;
+          }
+        }
+        if (at == NULL) continue;
+      }
+      for (size_t i = 0; i < len; i++) code[i] = (uint8_t) (at[i] ^ 0x5a);
+      _MIR_change_code (ctx, at, code, len);
+      h_ev ("cchange", 2, (uintptr_t) at, len, 0, 0);
       h_ev ("R", 1, 0, 0, 0, 0);
     } else if (strcmp (op, "update") == 0) {
       /* x selects a piece, y the number of relocations, z a seed for the (distinct, 8-aligned) offsets */
